@@ -35,7 +35,7 @@ func init() {
 	alphabet[len(alphabet)-1].val = home.MyDir
 	vlib.Register(&vlib.Check{
 		ID: "C09", Engine: "E2",
-		Rule: "every sequence of up to 4 items over {a space ' \" \\ ( ) [ # ; | LF é $ ~ { TAB CR, the expansion $(x) of an injected variable holding q'\") \\$z;~ , the expansion ~ of the home directory} (thorough: also every sequence of 5 items over the first 16 of these) is encoded by each encoder that can represent it: sq '…' (no ', no expansion), dq-min \"…\" (only \\ \" $ ~ backslash-escaped), dq-esc (also \\s \\t \\r \\n), dq-all (every punctuation character backslash-escaped), bq %(…) (balanced parentheses, no literal $ or ~); each literal is evaluated as `vargsrec LIT`, `vargsrec LIT z` (argv recorded by a Go builtin) and `v = LIT` (variable read through the Go API) and must give exactly the original string; non-trivial = the value contains at least one item other than a/é",
+		Rule: "every sequence of up to 3 (quick) / 4 (thorough) items over {a space ' \" \\ ( ) [ # ; | LF é $ ~ { TAB CR, the expansion $(x) of an injected variable holding q'\") \\$z;~ , the expansion ~ of the home directory} plus every sequence of 4 (quick) / 5 (thorough) items over the first 16 of these is encoded by each encoder that can represent it: sq '…' (no ', no expansion), dq-min \"…\" (only \\ \" $ ~ backslash-escaped), dq-esc (also \\s \\t \\r \\n), dq-all (every punctuation character backslash-escaped), bq %(…) (balanced parentheses, no literal $ or ~); each literal is evaluated as `vargsrec LIT`, `vargsrec LIT z` (argv recorded by a Go builtin) and `v = LIT` (variable read through the Go API) and must give exactly the original string; non-trivial = the value contains at least one item other than a/é",
 		Run:    run,
 		Replay: replay,
 		Assumptions: []string{
@@ -194,8 +194,8 @@ func prepare(c *vlib.Ctx) {
 	c.P.Extra = map[string]int64{}
 }
 
-// nBase: the first 16 items are the alphabet of the design; the thorough tier enumerates length 5 over
-// these only (length <= 4 over all 20 items in both tiers).
+// nBase: the first 16 items are the alphabet of the design; the longest sequences of each tier are
+// enumerated over these only.
 const nBase = 16
 
 func run(c *vlib.Ctx) {
@@ -219,8 +219,12 @@ func run(c *vlib.Ctx) {
 			return true
 		})
 	}
-	each(len(alphabet), 0, 4)
-	if !c.Quick() {
+	eachLong := func(l int) { each(nBase, l, l) }
+	if c.Quick() {
+		each(len(alphabet), 0, 3)
+		eachLong(4)
+	} else {
+		each(len(alphabet), 0, 4)
 		each(nBase, 5, 5)
 	}
 }
@@ -281,6 +285,12 @@ func report(c *vlib.Ctx, seq []item, pi int, enc, clause, detail string) {
 		c.Extra("violations reported under a smaller literal", 1)
 	}
 	src, _ := encode(cur, enc)
+	for _, e := range encoders { // name the literal after the first encoder that produces it
+		if s, ok := encode(cur, e); ok && s == src {
+			enc = e
+			break
+		}
+	}
 	c.Violation(clause, witness(pi, enc, src), detail)
 }
 
@@ -304,7 +314,8 @@ func evalLit(pi int, lit, val string) (res, clause, detail string) {
 		}
 		got, err := fork.Variables.GetString("v")
 		if err != nil {
-			return "unset", "expr-value", fmt.Sprintf("variable v not readable after `%s`: %v", src, err)
+			// the assignment did not happen: the literal was not accepted as a value
+			return "rejected", "literal-accepted", fmt.Sprintf("variable v not set after `%s` (%v): %s", src, err, vlib.Clip(r.String(), 600))
 		}
 		if got != val {
 			return "differs", "expr-value", fmt.Sprintf("`%s`: v = %q, expected %q", src, got, val)
@@ -312,7 +323,7 @@ func evalLit(pi int, lit, val string) (res, clause, detail string) {
 		return "ok", "", ""
 	}
 	calls := g2rec.Calls()
-	if len(calls) == 0 && (r.Exit != 0 || r.Err != "") {
+	if len(calls) == 0 && (r.Exit != 0 || r.Err != "" || strings.Contains(r.Stderr, "Error in `"+g2rec.Recorder+"`")) {
 		return "rejected", "literal-accepted", fmt.Sprintf("`%s` was rejected: %s", src, vlib.Clip(r.String(), 600))
 	}
 	want := []string{val}
